@@ -125,6 +125,8 @@ class _CGMYLevyMeasure(LevyMeasure):
         return 0
 
     def integrate(self, a: float, b: float) -> float:
+        if a == b:
+            return 0.0
         if a < 0 < b:
             if self.parameters.y >= 0:
                 return np.inf
